@@ -191,20 +191,23 @@ Theorem C05_extract_blocks_partition_bert : forall body mbs n, 1024 <= mbs -> 0 
 Proof. exact extract_blocks_partition_bert_lemma. Qed.
 Print Assumptions C05_extract_blocks_partition_bert.
 
-(* 12. Theorem 2 for size exponent 7: against ANY server whose acknowledgements of BERT blocks keep exponent 7, the requests are one
-       unfragmented request (body not longer than maximum_payload_size) or a BERT chain: NUM * 1024 = bytes sent so far, payload = the next
-       bytes, full BERT size and more-flag exactly on non-final messages, Size1 on the first only.  (When an acknowledgement LOWERS the
-       exponent from 7 the statement is false of the code: theorem 14.) *)
+(* 12. Theorem 2 for a client that starts at size exponent 7, against ANY server (responses as Message.decode can produce them — the server
+       may lower the exponent from 7 at any time, to any value): the requests are one unfragmented request (body not longer than
+       maximum_payload_size) or a chain (g_chain) in which NUM * unit = bytes sent so far (unit 1024 for exponents 7 and 6, 2^(szx+4)
+       below), the payload is the next bytes, the full message / block size and the more-flag exactly on non-final requests, the exponent
+       never grows, Size1 on the first request only.  (Before fix 166eafe this failed when an acknowledgement lowered the exponent from 7.) *)
 Theorem C05_block1_wire_consistent_bert : forall (S : Type) (serve : S -> request -> S * sresult),
-  (forall s rq s' r b n m, rq_block1 rq = Some (n, m, 7) -> serve s rq = (s', SResp r) -> rs_block1 r = Some b -> 7 <= bt_szx b) ->
-  forall cfg fuel s s' tr o, c_mbse cfg = 7 -> 1024 <= c_mps cfg ->
+  (forall s rq s' r, bt_wf (rq_block1 rq) = true -> bt_wf (rq_block2 rq) = true -> serve s rq = (s', SResp r) -> resp_wf r = true) ->
+  forall cfg fuel s s' tr o, c_mbse cfg = 7 -> 1024 <= c_mps cfg -> bt_wf6 (c_block2 cfg) = true ->
   run serve fuel s cfg = (s', tr, o) -> bert_wire_ok cfg tr.
 Proof. exact @run_bert_wire_ok. Qed.
 Print Assumptions C05_block1_wire_consistent_bert.
 
-(* 13. Theorem 3 for size exponent 7: client x BERT reference server that keeps exponent 7 (any BERT message size of the server, atomic
-       or stateless acknowledgement), every body, every representation: terminates with a 2.xx response, the server holds exactly the
-       body, the caller exactly the representation. *)
+(* 13. Theorem 3 for a client that starts at size exponent 7: client x BERT reference server with ANY acknowledgement policy (any list of
+       non-negative exponents: the server may keep 7 or lower it at once, later, repeatedly), any BERT message size of the server, atomic
+       or stateless acknowledgement; every body, every representation: terminates with a 2.xx response, the server holds exactly the body,
+       the caller exactly the representation, the wire is consistent.  (The Block2 policy keeps exponent 7, see honest_bert_cfg; a Block2
+       phase that mixes BERT and regular blocks is covered by the correspondence streams only.) *)
 Theorem C05_transfer_correct_bert : forall scf e rep, honest_bert_cfg scf e rep ->
   forall cfg, c_mbse cfg = 7 -> 1024 <= c_mps cfg -> c_block2 cfg = None ->
   forall fuel, (Z.to_nat (blen (c_body cfg)) + Z.to_nat (blen rep) + 1 < fuel)%nat ->
@@ -213,18 +216,6 @@ Theorem C05_transfer_correct_bert : forall scf e rep, honest_bert_cfg scf e rep 
     rs_block1 r = None /\ bert_wire_ok cfg tr.
 Proof. exact transfer_correct_bert_lemma. Qed.
 Print Assumptions C05_transfer_correct_bert.
-
-(* 14. KNOWN FINDING (open), carried by the model: a conforming BERT server that answers the first BERT message (2048 bytes) with size
-       exponent 6 makes the client continue at NUM 4 = offset 4096 instead of 2048 (protocol.py:963-965 doubles the cursor for the step
-       7 -> 6 although both count 1024-byte blocks); the server answers 4.08. *)
-Theorem C05_bert_reduction_refuted : exists scf cfg tr o,
-  s_mis scf = None /\ c_mbse cfg = 7 /\
-  (let '(_, tr', o') := run (serve_ref scf) 10 sstate0 cfg in (tr', o')) = (tr, o) /\
-  map rq_block1 tr = [Some (0, true, 7); Some (4, false, 6)] /\
-  blen (rq_payload (hd {| rq_block1 := None; rq_block2 := None; rq_size1 := None; rq_payload := [] |} tr)) = 2048 /\
-  (exists r, o = Done r /\ rs_code r = REQUEST_ENTITY_INCOMPLETE).
-Proof. exact bert_reduction_witness. Qed.
-Print Assumptions C05_bert_reduction_refuted.
 
 (* ---- non-vacuity: the hypotheses are satisfiable by concrete non-trivial instances *)
 Definition ex_scf : scfg := {| s_policy1 := [2; 0]; s_policy2 := [5; 1]; s_reps := [(Some 10, mkbody 300 1)]; s_rep_at := [];
@@ -274,8 +265,21 @@ Proof. vm_compute. reflexivity. Qed.
 Definition ex_bert_scf : scfg := {| s_policy1 := [7]; s_policy2 := [7]; s_reps := [(Some 10, mkbody 3000 1)]; s_rep_at := [];
                                     s_atomic := true; s_mis := None; s_bert := 2 |}.
 Example ex_bert_honest : honest_bert_cfg ex_bert_scf (Some 10) (mkbody 3000 1).
-Proof. split; try reflexivity; intros k; unfold pol; cbn [ex_bert_scf s_policy1 s_policy2 last]; destruct (Z.to_nat k) as [|[|?]]; cbn; lia. Qed.
+Proof. split; try reflexivity; try (repeat constructor; lia); intros k; unfold pol; cbn [ex_bert_scf s_policy1 s_policy2 last]; destruct (Z.to_nat k) as [|[|?]]; cbn; lia. Qed.
 Example ex_bert_transfer : (let '(st, tr, o) := run (serve_ref ex_bert_scf) 100 sstate0 {| c_body := mkbody 5000 3; c_mps := 2048; c_mbse := 7; c_block2 := None |} in
   (map (fun r => (rq_block1 r, rq_block2 r, blen (rq_payload r))) tr, beqb (hd [] (sv_bodies st)) (mkbody 5000 3), match o with Done r => blen (rs_payload r) | _ => -1 end))
   = ([(Some (0, true, 7), None, 2048); (Some (2, true, 7), None, 2048); (Some (4, false, 7), None, 904); (None, Some (2, false, 7), 0)], true, 3000).
 Proof. vm_compute. reflexivity. Qed.
+(* the scenario of the defect fixed in 166eafe: the first BERT message (2048 bytes) is acknowledged with exponent 6; the client goes on at
+   NUM 2 = offset 2048 in 1024-byte blocks and the conforming server completes the body (it used to continue at NUM 4 and get 4.08) *)
+Example ex_bert_reduction : exists scf cfg st tr r,
+  s_mis scf = None /\ c_mbse cfg = 7 /\
+  run (serve_ref scf) 10 sstate0 cfg = (st, tr, Done r) /\
+  map rq_block1 tr = [Some (0, true, 7); Some (2, true, 6); Some (3, true, 6); Some (4, false, 6)] /\
+  sv_bodies st = [c_body cfg] /\ rs_code r = CHANGED.
+Proof. exact bert_reduction_example. Qed.
+(* premises of theorem 13 with an acknowledgement policy that lowers the exponent twice *)
+Definition ex_bert_scf2 : scfg := {| s_policy1 := [7; 6; 3]; s_policy2 := [7]; s_reps := [(Some 10, mkbody 3000 1)]; s_rep_at := [];
+                                     s_atomic := false; s_mis := None; s_bert := 1 |}.
+Example ex_bert_honest2 : honest_bert_cfg ex_bert_scf2 (Some 10) (mkbody 3000 1).
+Proof. split; try reflexivity; try (repeat constructor; lia); intros k; unfold pol; cbn [ex_bert_scf2 s_policy2 last]; destruct (Z.to_nat k) as [|[|?]]; cbn; lia. Qed.
